@@ -21,6 +21,8 @@ Cos1000(a) == LET b == ((a % 360) + 360) % 360 IN
                 [] b = 240 -> -500 [] b = 270 -> 0 [] b = 300 -> 500 [] b = 30 -> 866 [] b = 150 -> -866
                 [] b = 210 -> -866 [] b = 330 -> 866 [] OTHER -> 0
 \* wave-age mask:  A cos(dir - wd) > celerity = 1.56/f = 31.2/F   <=>   A * cos1000 * F > 31200
+\* A = 0 stands for a calm AND for a missing wind (speed, direction or depth not a number: the comparison is false for every bin);
+\* the replay realises it either way
 MaskOf(A, wd) == {n \in Px : A * Cos1000(Dir(DJ(n)) - wd) * F[FI(n) + 1] > 31200}
 
 \* label maps with canonical numbering: label of bin 0 is 1 and a new label is always the next unused one
